@@ -20,9 +20,11 @@
 (*   keys   set of positions whose key exists in the wallet                *)
 (*   used   subset of keys that has received funds                         *)
 (*   accts  set of [net, wt, acct] that exist                              *)
-(* cfg: [net, wt, acct] the wallet was created with, ms (multisig),        *)
-(*      cos (own cosigner index), watch (created from an account public    *)
-(*      key: no private key, one account, one witness type, one network).  *)
+(* cfg: [net, wt, acct] the wallet was created with, ms (multisig wallet   *)
+(*      whose other cosigners are given as account public keys: one        *)
+(*      account, one witness type, one network), cos (own cosigner index), *)
+(*      watch (created from an account public key: no private key, one     *)
+(*      account, one witness type, one network).                           *)
 (*                                                                         *)
 (* An action is a public call  a = [op, net, wt, acct, ch, n, idx, form]    *)
 (* (form: how change and index were spelled, "path" | "args") with the     *)
@@ -89,6 +91,9 @@ PosTokens(cfg, p) == IF cfg.watch THEN PathTokens(UpperM, RelPath(cfg.ms, cfg.co
                      ELSE PathTokens(LowerM, FullPath(cfg.ms, cfg.cos, p))
 AcctTokens(cfg, a) == PathTokens(LowerM, AccountPath(cfg.ms, cfg.cos, [net |-> a.net, wt |-> a.wt, acct |-> a.acct, ch |-> 0, idx |-> 0]))
 
+IsDec(t) == t # <<>> /\ Len(t) <= 9 /\ \A k \in 1..Len(t) : t[k] \in 48..57
+RECURSIVE DecVal(_)
+DecVal(t) == IF t = <<>> THEN 0 ELSE DecVal(SubSeq(t, 1, Len(t) - 1)) * 10 + (t[Len(t)] - 48)
 RECURSIVE SplitOn(_, _, _)
 SplitOn(s, sep, cur) == IF s = <<>> THEN <<cur>>
                         ELSE IF s[1] = sep THEN <<cur>> \o SplitOn(Tail(s), sep, <<>>)
@@ -110,7 +115,8 @@ Hole(S) == CHOOSE x \in 0..Cardinality(S) : x \notin S /\ \A y \in 0..x : y = x 
 \* unless a key was created by explicit position beyond the end of the chain)
 NextSet(s, c) == IF Idxs(s, c) = {} THEN {0} ELSE {MaxOf(Idxs(s, c)) + 1, Hole(Idxs(s, c))}
 
-InitS(cfg) == [keys  |-> {Pos(Chain(cfg.net, cfg.wt, cfg.acct, 0), 0)},
+\* a new wallet holds the first receiving key of its account; a multisig wallet holds no key before the first request
+InitS(cfg) == [keys  |-> IF cfg.ms THEN {} ELSE {Pos(Chain(cfg.net, cfg.wt, cfg.acct, 0), 0)},
                used  |-> {},
                accts |-> {Acct(cfg.net, cfg.wt, cfg.acct)}]
 
@@ -184,6 +190,19 @@ After(cfg, s, a, out) ==
 (* an answer the specification allows.                                                                               *)
 DevBulkWt     == "bulk-created-keys-stored-with-witness-type-of-key-version"
 DevBulkChange == "bulk-created-keys-stored-with-change-0"
+\* two more, judged in WalletKeysEval (they need the path text of the keys):
+\*  - DevMsColumns: the change and index columns of a newly created multisig key are the `change` / `address_index`
+\*    arguments of the call (for several keys: of the first), not those of its path;
+\*  - DevMsForeign: a multisig wallet holding account public keys of other cosigners serves a request for another witness
+\*    type or network (the other cosigners' keys then do not lie at the path the key claims).
+\*  - DevWatchAcct: a wallet made from one account public key ignores a request's account number: it answers from its
+\*    only account, counting indices over the (empty) account asked for - keys that were issued are issued again;
+\*  - DevClashServed: requests for keys (unlike new_account) are served for a network whose coin type another network
+\*    of the wallet already uses: the key lies at the other network's position and is labelled with the network asked for.
+DevWatchAcct   == "watch-only-wallet-ignores-the-account-of-a-request"
+DevClashServed == "keys-served-for-a-network-whose-coin-type-is-taken"
+DevMsColumns  == "multisig-keys-stored-with-change-and-index-of-the-call-arguments"
+DevMsForeign  == "multisig-wallet-with-public-cosigner-keys-serves-another-witness-type-or-network"
 \* witness types whose extended private/public key version bytes coincide on a network (SLIP-132: Litecoin has Ltpv/Ltub
 \* and Mtpv/Mtub only, Litecoin testnet ttpv/ttub only)
 VersionClass(net, wt) == IF net \in {"litecoin", "litecoin_legacy"} THEN (IF wt = "legacy" THEN {"legacy"} ELSE {"p2sh-segwit", "segwit"})
